@@ -41,7 +41,15 @@ def main():
         env = dict(os.environ, VERIF_REPO=str(WT), VERIF_REPLAYS=str(HOME / '.scratch' / ('replays-' + WT.name)))
         t = sh(f'cd {WT} && PYTHONPATH={WT} /venv/bin/python -m pytest -q -x -p no:cacheprovider tests 2>&1 | tail -1')
         res = {'tests': t.stdout.strip()[-60:], 'checks': {}}
-        for pid in PROPS:
+        props = PROPS
+        if os.environ.get('BENIGN_MAPPED'):
+            # only the checks that look at the files the patch touches (the map of selftest/mutate.py)
+            sys.path.insert(0, str(HOME / 'selftest'))
+            import mutate
+            touched = [l[6:].strip() for l in (d / 'patch.diff').read_text().splitlines() if l.startswith('+++ b/')]
+            props = sorted({c for f in touched for c in mutate.FILE_CHECKS.get(f, PROPS)})
+            res['mapped_to'] = props
+        for pid in props:
             t0 = time.time()
             r = sh([str(HOME / 'check'), pid, '--tier', 'quick'], env=env, cwd=str(HOME))
             lines = [l[:400] for l in r.stdout.splitlines() if l.startswith(('VIOLATION', 'INCONCLUSIVE'))]
